@@ -30,6 +30,8 @@ impl<'a> NoUndefinedVariables<'a> {
         undef: &mut Vec<(&'a str, Pos)>,
         visited: &mut HashSet<Scope<'a>>,
     ) {
+        #[cfg(async_graphql_verif)]
+        crate::verif_hooks::count("no_undefined_variables");
         if visited.contains(scope) {
             return;
         }
